@@ -218,3 +218,37 @@ Proof.
   intros Ha. unfold ext_from_pack. destruct (args1 ++ a :: args2) eqn:E; [destruct args1; discriminate|]. rewrite <- E.
   apply andb_false_iff. left. rewrite forallb_app. cbn [forallb]. destruct Ha as [-> | ->]; cbn [arg_valid andb]; apply andb_false_r.
 Qed.
+
+(* ---- widening the index type keeps a mapping valid; the implicit same-layout conversions, all three ---- *)
+Lemma valid_widen ts tt m : imax ts <= imax tt -> valid ts m -> valid tt m.
+Proof.
+  intros Hm. destruct m as [es|es|es ss|es ps|es ps]; cbn [valid]; unfold admissible.
+  - intros [Hf Hp]. split; [eapply Forall_impl; [|exact Hf]; cbn; intros; lia|lia].
+  - intros [Hf Hp]. split; [eapply Forall_impl; [|exact Hf]; cbn; intros; lia|lia].
+  - intros (Hl & He & Hs & Hc & Hsp). repeat split; auto; try lia.
+    + eapply Forall_impl; [|exact He]; cbn; intros; lia.
+    + eapply Forall_impl; [|exact Hs]; cbn; intros; lia.
+  - intros [[Hf Hp] Hq]. split; [split; [eapply Forall_impl; [|exact Hf]; cbn; intros; lia|lia]|].
+    intros H2. destruct (Hq H2). split; lia.
+  - intros [[Hf Hp] Hq]. split; [split; [eapply Forall_impl; [|exact Hf]; cbn; intros; lia|lia]|].
+    intros H2. destruct (Hq H2). split; lia.
+Qed.
+
+Definition same_kind_target (m : mapping) : option lkind :=
+  match m with MLeft _ => Some KLeft | MRight _ => Some KRight | MStride _ _ => Some KStride | _ => None end.
+
+(* an implicit layout_left -> layout_left, layout_right -> layout_right or layout_stride -> layout_stride conversion
+   yields, for every valid value of the source type, the same mapping, valid in the target's index type *)
+Theorem same_kind_implicit_total ts tt spat tpat dv m k :
+  same_kind_target m = Some k -> exts m = fill ts spat dv ->
+  ext_compatible (mkE ts spat) (mkE tt tpat) = true -> ext_explicit (mkE ts spat) (mkE tt tpat) = false ->
+  pat_rep ts spat -> Forall (fun v => 0 <= v <= imax ts) dv -> valid ts m ->
+  conv_mapping ts m (mkmt tt tpat k None) = Ok m /\ valid tt m.
+Proof.
+  intros Hk He Hc Hx Hr Hv Hval. unfold ext_compatible, ext_explicit in *. cbn [x_t x_pat] in *.
+  apply orb_false_iff in Hx. destruct Hx as [Hd Hm]. apply Z.ltb_ge in Hm.
+  pose proof (ext_implicit_total ts tt Hm spat tpat dv Hc Hd Hr Hv) as Hpre. rewrite <- He in Hpre.
+  pose proof (valid_widen ts tt m Hm Hval) as Hvt. split; [|exact Hvt].
+  destruct m as [es|es|es ss|es ps|es ps]; cbn [same_kind_target] in Hk; try discriminate; injection Hk as <-;
+    apply (conv_correct ts _ (mkmt tt tpat _ None) _); auto; exact I.
+Qed.
